@@ -85,7 +85,7 @@ ASSUMPTIONS = [
     'transformations only the sweep covers it',
 ]
 HEADER = ('From Coq Require Import List NArith ZArith Bool PrimFloat.\n'
-          'From T4V Require Import Base.Scalar C13.Model C13.Exec.\n'
+          'From T4V Require Import Base.Scalar C13.Model C13.ModelTr C13.Exec.\n'
           'Open Scope Z_scope.\n')
 
 WITNESS_HELPER = '''helper plane merged with a user plane
@@ -604,6 +604,60 @@ def tie_fill(res, rng, n):
                       found_input=False)
 
 
+def tie_fill_tr(res, rng, n):
+    '''The FILL loop WITH transformations on generated decks: cell table
+    captured from the real conversion before and after the loop vs
+    ModelTr.fill_loop_tr.'''
+    cases, meta = [], []
+    tries = 0
+    while len(cases) < n and tries < 4 * n:
+        tries += 1
+        dck, info = sweep.gen_deck(rng)
+        if info['depth'] == 0:
+            continue
+        text = deckmod.render(dck)
+        fd, fg = rng.random() < 0.5, rng.random() < 0.5
+        args = (['--always-inline-filled'] if fd else []) + \
+            (['--always-inline-filling'] if fg else []) + \
+            deckmod.lattice_args(dck)
+        got = tie.impl_fill_tr(text, args)
+        if got is None:
+            res.count('fill_tr:not-captured')
+            continue
+        (cells, tinfo, ckey, skey, ncache), (post, ckey2, skey2) = got
+        if ncache:
+            res.count('fill_tr:cache-not-empty')
+            continue
+        res.seen(('fill_tr', text, fd, fg), nontrivial=bool(tinfo))
+        res.count(f'fill_tr:{int(fd)}{int(fg)}:new-cells='
+                  f'{min((ckey2 - ckey) // 5 * 5, 30)}')
+        res.count('fill_tr:with-transformations' if tinfo
+                  else 'fill_tr:no-transformation')
+        cases.append(cpair(cbool(fd), cbool(fg), tie.coq_cells(cells),
+                           tie.coq_tinfo(tinfo), cz(ckey), cz(skey),
+                           f'(Ok ({tie.coq_cells(post)}, {cz(ckey2)}, '
+                           f'{cz(skey2)}))'))
+        meta.append((text, args))
+    bad, errs = common.run_case_files(
+        'c13_filltr', HEADER,
+        'bool * bool * list (Z * mcell) * list (Z * (option (list float) * '
+        'list (list float))) * Z * Z * res (list (Z * mcell) * Z * Z)',
+        'check_fill_tr', cases, chunk=40)
+    res.obligation(f'tie:fill_tr ({len(cases)} decks: FILL loop with '
+                   'transformations (pot_fill, cell_transform and its cache, '
+                   'pot_transform numbering) = ModelTr.fill_loop_tr)',
+                   not bad and not errs and len(cases) >= n // 2,
+                   f'{len(bad)} disagreements {errs[:1]}')
+    for idx in bad[:5]:
+        text, args = meta[idx]
+        res.violation('correspondence',
+                      'the FILL loop with transformations differs from the '
+                      f'model (options {args})',
+                      {'input': {'deck': text, 'vectors': [args]},
+                       'theorem_or_correspondence': 'tie:fill_tr'},
+                      found_input=False)
+
+
 # ---------------------------------------------------------------------------
 # sweep
 # ---------------------------------------------------------------------------
@@ -719,6 +773,7 @@ def run(res, tier, seed, proofs_ok):
     tie_finish(res, rng, 250 if quick else 2000)
     tie_inlining(res, rng, 250 if quick else 2000)
     tie_fill(res, rng, 200 if quick else 1500)
+    tie_fill_tr(res, rng, 120 if quick else 800)
     run_sweep(res, tier, rng)
 
 
